@@ -9,8 +9,14 @@
 (* does.  A disagreement between machine and documentation is a defect of   *)
 (* the specification (reported as a tool error, never as a violation).      *)
 (* The source text travels in the case's tag field.                         *)
+(* The same module runs the repository's example programs                   *)
+(* (examples/human-eval/*.evy: functions with their own `test` calls) for   *)
+(* C10: whole programs through the same machine, compared with evy.         *)
 (***************************************************************************)
 EXTENDS EvyMachine
+
+CONSTANT MaxSteps      \* programs that need more machine steps are left unfinished (no case is printed for them)
+WithinSteps == st.ns <= MaxSteps
 
 DocCases == ndJsonDeserialize("examples.ndjson")
 
